@@ -160,7 +160,17 @@ func (w *scribbleWorld) Gen(seed uint64, tier string) *Plan {
 	p.Clients = []string{c.Role, "interfering-caller"}
 	n := []int{6, 12, 25, 50, 100}[r.Intn(5)]
 	fam := familyOf(cfg.Kind)
-	for id := 0; id < n; id++ {
+	first := 0
+	if r.P(1, 25) {
+		p.Cfg.Dom = []int{32, 256, 1024}[r.Intn(3)]
+		s = makeSubject(p.Cfg, false)
+		op := genFill(r, 0, 300, 2200)
+		s.ModelApply(op)
+		p.Ops = append(p.Ops, op)
+		first = 1
+		n = min(n, 25)
+	}
+	for id := first; id < n; id++ {
 		var op Op
 		switch r.Weighted(12, 3, 3, 3, 2, 1) {
 		case 0:
@@ -254,13 +264,15 @@ func (w *scribbleWorld) Exec(p *Plan, st *RunStats) *Violation {
 	}
 	if !o.Failed() {
 		// final: earlier snapshots still intact, container equals the model
-		o.cur = Op{ID: -1, N: "FinalCheck"}
-		for _, sn := range snaps {
-			if !sn.scribbled && !sameSlice(sn.slice, sn.copy) {
-				o.Fail("C16", "snapshot-changed", "the slice returned by %s at op %d was changed by later container operations: now %v, was %v", sn.what, sn.takenAt, sn.slice.Interface(), sn.copy.Interface())
+		safely(o, Op{ID: -1, N: "FinalCheck"}, func() {
+			o.cur = Op{ID: -1, N: "FinalCheck"}
+			for _, sn := range snaps {
+				if !sn.scribbled && !sameSlice(sn.slice, sn.copy) {
+					o.Fail("C16", "snapshot-changed", "the slice returned by %s at op %d was changed by later container operations: now %v, was %v", sn.what, sn.takenAt, sn.slice.Interface(), sn.copy.Interface())
+				}
 			}
-		}
-		same("the run")
+			same("the run")
+		})
 	}
 	st.Steps = stepCount - start
 	st.NonTrivial = scribbles >= 1
